@@ -1137,6 +1137,8 @@ class Engine:
         self.t_path = 0.0
         self.pinned = {}  # variable id -> (forced value, index of the stack entry that forces it)
         self.nfrozen = 0
+        self.dump_vcs = 0
+        self.dumped = []
         self.saved_queries = 0
 
     # ---- pins: variables forced to a single value by the path condition (their conditions need no solver)
@@ -1507,6 +1509,8 @@ class Engine:
         self.solver.add(z3.Not(phi))
         r = self._check()
         m = self.solver.model() if r == z3.sat else None
+        if self.dump_vcs and r == z3.unsat and len(self.dumped) < self.dump_vcs:
+            self.dumped.append(self.solver.to_smt2())  # path condition AND NOT property, as SMT-LIB2, for a second solver
         self.solver.pop()
         return str(r), m
 
